@@ -542,7 +542,15 @@ pub fn judge_c15(m: &GenModel, truth: Verdict, cfg: &RunCfg, res: &RunResult) ->
             }
             _ => {}
         },
-        Outcome::Panic { msg } => out.push(f("panic", format!("panicked: {msg}"))),
+        // C15 speaks about what a call returns when a limit stops it and about rejecting
+        // invalid options: a panic is its matter when the limit fired (an error, not a crash,
+        // is owed) or the options were invalid. A crash of an uninterrupted run with valid
+        // options is judged under C05 (same model, same entry point, no clock involved).
+        Outcome::Panic { msg } => {
+            if interrupted(res) || !cfg.gap.is_valid() {
+                out.push(f("panic", format!("panicked: {msg}")));
+            }
+        }
         Outcome::NoProgress { .. } | Outcome::Hung { .. } | Outcome::NotRun => {}
     }
     out
